@@ -18,6 +18,8 @@ trait PairDyn {
     fn step(&mut self, rng: &mut Rng, rep: &mut Report) -> u64;
     fn check(&self, rep: &mut Report);
     fn finish(self: Box<Self>, rep: &mut Report);
+    /// (start, bytes, what) of every block this pair currently claims in the arena
+    fn extents(&self, out: &mut Vec<(usize, usize, &'static str)>);
 }
 impl<'b, T: El> PairDyn for Pair<'b, T> {
     fn step(&mut self, rng: &mut Rng, rep: &mut Report) -> u64 {
@@ -40,6 +42,16 @@ impl<'b, T: El> PairDyn for Pair<'b, T> {
     }
     fn finish(self: Box<Self>, rep: &mut Report) {
         Pair::finish(*self, rep)
+    }
+    fn extents(&self, out: &mut Vec<(usize, usize, &'static str)>) {
+        let sz = std::mem::size_of::<T>();
+        out.push((self.bv.as_ptr() as usize, self.bv.capacity().saturating_mul(sz), "vector buffer (whole capacity)"));
+        for (bx, _) in &self.kept.boxes {
+            out.push((bx.as_ptr() as usize, bx.len() * sz, "boxed slice from into_boxed_slice"));
+        }
+        for (p, n, _) in &self.kept.slices {
+            out.push((*p as usize, *n * sz, "slice from into_bump_slice"));
+        }
     }
 }
 
@@ -126,6 +138,27 @@ pub fn run(args: &Args, rep: &mut Report) {
                         }
                     }
                     rep.bump("c13.neighbour_checks");
+                    // C01 at the collections layer: the blocks the live containers claim are pairwise disjoint
+                    let mut ext: Vec<(usize, usize, &'static str)> = Vec::new();
+                    for p in pairs.iter() {
+                        p.extents(&mut ext);
+                    }
+                    for (p, n, _) in &canaries {
+                        ext.push((*p as usize, *n, "raw slice"));
+                    }
+                    ext.push((nstr.as_ptr() as usize, nstr.capacity(), "string buffer (whole capacity)"));
+                    for (bx, _) in &boxes {
+                        ext.push((&**bx as *const [u64; 3] as usize, 24, "box"));
+                    }
+                    ext.retain(|e| e.1 > 0);
+                    ext.sort();
+                    for w in ext.windows(2) {
+                        if w[0].0 + w[0].1 > w[1].0 {
+                            rep.violate("C01", "C01/collections/blocks-claimed-by-two-live-containers-overlap", format!("{} [{:#x}, +{}) and {} [{:#x}, +{})", w[0].2, w[0].0, w[0].1, w[1].2, w[1].0, w[1].1));
+                            break;
+                        }
+                    }
+                    rep.add("c01.collection_blocks_checked_for_overlap", ext.len() as u64);
                 }
                 if rep.violations.len() >= rep.max_violations {
                     break;
